@@ -160,7 +160,7 @@ PROPERTIES = {
   'C05': {
     'verus': ['lexer', 'tripcount'],
     'verus_route': {'lexer': 'totality'},
-    'quick_witness': ['parser_terminates', 'nocrash', 'fmtterm', 'fmtserver'],
+    'quick_witness': ['parser_terminates', 'nocrash', 'fmtterm', 'fmtserver', 'gen_nocrash'],
     'kani': ['fold', 'induction'],
     # only the harnesses whose failure is a compiler crash (panic) on some input
     'kani_only': {'fold': ['fold_mul', 'fold_plus', 'fold_minus', 'fold_shl', 'fold_shr', 'fold_land', 'fold_lor', 'fold_xor',
